@@ -154,6 +154,13 @@ impl Write for DBFile {
     }
 
     fn write(&mut self, buf: &[u8]) -> io::Result<usize> {
+        #[cfg(feature = "verif")]
+        if crate::verif::io::is_recording() {
+            let offset = self.f.stream_position()?;
+            let n = self.f.write(buf)?;
+            crate::verif::io::report_write(&self.p, offset, &buf[..n]);
+            return Ok(n);
+        }
         self.f.write(buf)
     }
 }
@@ -181,6 +188,9 @@ impl FileOperations for DBFile {
             .sync_on_write(false) // This is O_DSYNC (not used for now)
             .open(&path)?;
 
+        #[cfg(feature = "verif")]
+        crate::verif::io::report(path.as_ref(), crate::verif::io::IoKind::Create);
+
         Ok(Self {
             f,
             p: path.as_ref().to_path_buf(),
@@ -203,16 +213,22 @@ impl FileOperations for DBFile {
 
     // Forcefully remove he file
     fn remove(path: impl AsRef<Path>) -> io::Result<()> {
+        #[cfg(feature = "verif")]
+        crate::verif::io::report(path.as_ref(), crate::verif::io::IoKind::Remove);
         fs::remove_file(path)
     }
 
     // truncate the file to 0 len
     fn truncate(&mut self) -> io::Result<()> {
+        #[cfg(feature = "verif")]
+        crate::verif::io::report(&self.p, crate::verif::io::IoKind::Truncate);
         self.f.set_len(0)
     }
 
     // sync the file to disk
     fn sync_all(&self) -> io::Result<()> {
+        #[cfg(feature = "verif")]
+        crate::verif::io::report(&self.p, crate::verif::io::IoKind::SyncAll);
         File::sync_all(&self.f)
     }
 }
